@@ -6,12 +6,13 @@ pkg=$1; re=$2; shift 2
 scr=${VERIF_SCRATCH:-/var/tmp/verif-scratch}/replay.$$
 mkdir -p "$scr"
 trap 'rm -rf "$scr"' EXIT
-python3 - "$pkg" "$scr" <<'PY'
+repo=${VERIF_REPO:-/repo}; root=${VERIF_ROOT:-/verif}
+python3 - "$pkg" "$scr" "$repo" "$root" <<'PY'
 import json,os,sys,glob
-pkg,scr=sys.argv[1],sys.argv[2]
+pkg,scr,repo,root=sys.argv[1:5]
 ov={"Replace":{}}
-for f in glob.glob(f"/verif/replay/{pkg}/*_test.go"):
-    ov["Replace"][f"/repo/{pkg}/{os.path.basename(f)}"]=f
+for f in glob.glob(f"{root}/replay/{pkg}/*_test.go"):
+    ov["Replace"][f"{repo}/{pkg}/{os.path.basename(f)}"]=f
 json.dump(ov,open(f"{scr}/ov.json","w"))
 PY
-cd /repo/$pkg && go test -overlay "$scr/ov.json" -vet=off -count=1 -timeout 120s -v -run "$re" "$@" . 2>&1
+cd $repo/$pkg && go test -overlay "$scr/ov.json" -vet=off -count=1 -timeout 120s -v -run "$re" "$@" . 2>&1
